@@ -43,7 +43,7 @@ VARIANTS = [
     dict(name="c10-copy-from-buffer", property="C10", rule="C10-C", file=MB,
          old="        return cls.from_buffer_copy(m)", new="        return cls.from_buffer(m)"),
     dict(name="c10-message-copy-shares-data", property="C10", rule="C10-C", file=MS,
-         old="            MessageHeader.from_buffer_copy(m.header), m.data.from_buffer_copy(m.data)", new="            MessageHeader.from_buffer_copy(m.header), m.data"),
+         old="            type(m.data).from_buffer_copy(m.data),", new="            m.data,"),
     dict(name="c10-version-guard-after-decode", property="C10", rule="C10-V", file=MS,
          old="        if hdr.version != 0 and hdr.version != msg_cls.type_hash:\n            raise InvalidMessageDefinition(\n                f\"Client's message definition does not match sender's version: {msg_cls.type_name}\"\n            )\n\n        msg_data = msg_cls.from_dict(d[\"data\"])",
          new="        msg_data = msg_cls.from_dict(d[\"data\"])\n        if hdr.version != 0 and hdr.version != msg_cls.type_hash:\n            raise InvalidMessageDefinition(\n                f\"Client's message definition does not match sender's version: {msg_cls.type_name}\"\n            )\n"),
@@ -60,7 +60,7 @@ VARIANTS = [
     dict(name="c10-name-derivation-differs", property="C10", rule="C10-S", file=MB,
          old="    for _name, ftype, *_ in obj._fields_:\n        name = _name[1:] if _name[0] == \"_\" else _name\n        if issubclass(ftype, MessageBase):\n            _from_dict(", new="    for _name, ftype, *_ in obj._fields_:\n        name = _name.lstrip(\"_\")\n        if issubclass(ftype, MessageBase):\n            _from_dict("),
     dict(name="c10-silent-copy-via-constructor", property="C10", expect="silent", file=MS,
-         old="        return Message(\n            MessageHeader.from_buffer_copy(m.header), m.data.from_buffer_copy(m.data)\n        )", new="        return cls(\n            type(m.header).from_buffer_copy(m.header), type(m.data).from_buffer_copy(m.data)\n        )"),
+         old="        return Message(\n            type(m.header).from_buffer_copy(m.header),\n            type(m.data).from_buffer_copy(m.data),\n        )", new="        hdr_cls, data_cls = type(m.header), m.data.__class__\n        return cls(hdr_cls.from_buffer_copy(m.header), data_cls.from_buffer_copy(m.data))"),
     dict(name="c09-int-range-one-sided", property="C09", rule="C09-D", file=V,
          old="        if not (self._min <= int(value) <= self._max):", new="        if not (int(value) <= self._max):"),
     dict(name="c09-string-length-off-by-one", property="C09", rule="C09-D", file=V,
